@@ -324,7 +324,8 @@ ADDENDA = {
            "them) and all 13 consumers (13 000 programs).",
     "C18": "The macro forms are additionally applied to every state of a Parser.tla graph and compared on remainder, "
            "offsets and direction.",
-    "C19": "min!/max!/_by/_by_key on every primitive type with four anchor values per type; every option / result macro "
+    "C19": "min!/max!/_by/_by_key on every primitive type and on slices, strings, arrays, Option and Ordering with four "
+           "anchor values per type; every option / result macro "
            "on a payload with a counting destructor (same number of destructor runs as std).",
     "C20": "Pieces and separators of 7..17 bytes with a multi-byte character at the start / end / straddling byte 8.",
 }
